@@ -184,7 +184,9 @@ func checkC13(c C13Case) Outcome {
 	other := "tests/regression/tests/REQUEST-911-Y/911100.yaml"
 	otherContent := "---\ntests:\n  - test_id: 1\n  - test_id: 2\n"
 	later := "tests/regression/tests/REQUEST-999-Z/999100.yaml"
-	tree := cli.Tree{"regex-assembly/": "", rel: content, other: otherContent, later: otherContent, "tests/regression/tests/REQUEST-999-Z/notes.txt": "not a test file\n"}
+	tree := cli.Tree{"regex-assembly/": "", rel: content, other: otherContent, later: otherContent, "tests/regression/tests/REQUEST-999-Z/notes.txt": "not a test file\n",
+		"tests/regression/tests/REQUEST-" + c.Rule[:3] + "-X/.gitkeep": "", "tests/regression/tests/REQUEST-" + c.Rule[:3] + "-X/0-readme.txt": "  - test_id: 99\n",
+		"tests/regression/tests/REQUEST-" + c.Rule[:3] + "-X/900001.yaml.orig": "  - test_id: 99\n", "tests/regression/tests/.DS_Store": "x"}
 	root := sb.Path("crs")
 	if err := tree.Write(root); err != nil {
 		panic(err)
